@@ -1,0 +1,19 @@
+"""Observation taps for external verification harnesses.
+
+Inactive unless the environment variable WELL_ID_DLISWRITER_VERIF is set to '1' at import time.
+The taps only report; they never change what the writer does.
+"""
+
+import os
+from typing import Any, Callable
+
+ENABLED: bool = os.environ.get('WELL_ID_DLISWRITER_VERIF') == '1'
+
+sinks: list[Callable[[str, dict], None]] = []
+
+
+def emit(kind: str, **payload: Any) -> None:
+    """Report an observation to all registered sinks."""
+
+    for sink in sinks:
+        sink(kind, payload)
